@@ -39,8 +39,8 @@ Proof.
   - inversion H; subst. cbn in Hin. destruct Hin as [E|[E|[]]]; [|discriminate]. inversion E; subst.
     split; [reflexivity|]. split; [reflexivity|]. split; [discriminate|].
     eexists. split.
-    + unfold rp_get. cbn [rp_ctxs rp_set_sending rp_set_pipes].
-      destruct (k =? 0)%N; cbn [rp_ctxs rp_set_writable]; apply rp_get_put_same.
+    + cbv zeta. repeat match goal with |- context [if ?b then _ else _] => destruct b end;
+        unfold rp_get; cbn [rp_ctxs rp_set_sending rp_set_pipes rp_set_writable]; apply rp_get_put_same.
     + split; reflexivity.
 Qed.
 
@@ -73,29 +73,29 @@ Proof.
 Qed.
 
 (* what a context remembers is exactly the request it received last *)
-Lemma rep_recv_records s k c a nb p m rest :
+Lemma rep_recv_records pf s k c a nb p m rest :
   rp_holding s = (p, m) :: rest ->
-  exists s', rep_ctx_recv s k c a nb = (s', [TranRecv p; Complete a E_OK (Some (rep_deliver m))]) /\
+  exists s', rep_ctx_recv pf s k c a nb = (s', [TranRecv p; Complete a E_OK (Some (rep_deliver m))]) /\
              exists c', rp_get s' k = Some c' /\ rc_pipe c' = p /\ rc_bt c' = pm_hdr m.
 Proof.
   intros H. unfold rep_ctx_recv. rewrite H. eexists. split; [reflexivity|].
   unfold rep_take. eexists. split.
-  - match goal with |- context [if ?b then rp_set_writable _ true else _] => destruct b end;
+  - cbv zeta. repeat match goal with |- context [if ?b then _ else _] => destruct b end;
       unfold rp_get; cbn [rp_ctxs rp_set_writable]; apply rp_get_put_same.
   - split; reflexivity.
 Qed.
 
 (* second concurrent receive *)
-Lemma rep_second_recv s k c a r :
-  rp_holding s = [] -> rc_raio c = Some r -> rep_ctx_recv s k c a false = (s, [Complete a E_STATE None]).
+Lemma rep_second_recv pf s k c a r :
+  rp_holding s = [] -> rc_raio c = Some r -> rep_ctx_recv pf s k c a false = (s, [Complete a E_STATE None]).
 Proof. intros H1 H2. unfold rep_ctx_recv. now rewrite H1, H2. Qed.
 
 (* non-blocking receive: completes in the same step; EAGAIN exactly when no
    request is held, and then nothing changes *)
-Lemma rep_nb_recv s k c a :
-  (rp_holding s = [] -> rep_ctx_recv s k c a true = (s, [Complete a E_AGAIN None])) /\
+Lemma rep_nb_recv pf s k c a :
+  (rp_holding s = [] -> rep_ctx_recv pf s k c a true = (s, [Complete a E_AGAIN None])) /\
   (forall p m rest, rp_holding s = (p, m) :: rest ->
-     exists s', rep_ctx_recv s k c a true = (s', [TranRecv p; Complete a E_OK (Some (rep_deliver m))])).
+     exists s', rep_ctx_recv pf s k c a true = (s', [TranRecv p; Complete a E_OK (Some (rep_deliver m))])).
 Proof.
   split.
   - intros H. unfold rep_ctx_recv. now rewrite H.
@@ -118,8 +118,8 @@ Fixpoint rep_run (pf : pfix) (s : rep) (ops : list pop) : rep * list (list pout)
   | [] => (s, [])
   | o :: r => let '(s1, outs) := rep_step pf s o in let '(s2, tr) := rep_run pf s1 r in (s2, outs :: tr)
   end.
-Definition pf_pinned : pfix := mkPfix false false false.
-Definition pf_repaired : pfix := mkPfix true true true.
+Definition pf_pinned : pfix := mkPfix false false false false.
+Definition pf_repaired : pfix := mkPfix true true true true.
 
 Lemma rep_nb_send_keeps_slot_refuted_w :
   nth 8 (snd (rep_run pf_pinned rep_init w_rep_ops)) [] = [Complete 9%N E_AGAIN None] /\
@@ -163,3 +163,133 @@ Proof. vm_compute. reflexivity. Qed.
 Definition rep_rinv (s : rep) : Prop := rp_readable s = negb (is_nil (rp_holding s)).
 Lemma rep_rinv_init : rep_rinv rep_init.
 Proof. reflexivity. Qed.
+
+(* the send descriptor and a busy reply pipe.  The socket holds a request from pipe 1;
+   another context starts sending on pipe 1.  Pinned: the descriptor stays raised
+   although a non-blocking reply is refused; repaired: it is cleared, and raised
+   again when the pipe has sent *)
+Definition w_rep_wbusy : list pop :=
+  [PCtxOpen 0%N; PPipeStart 1%N PROTO_REQ;
+   PRecvDone 1%N 0%N (mkPmsg [] (be32 2147483649 ++ [1%N])); PRecv (Some 0%N) 9%N true;
+   PRecvDone 1%N 0%N (mkPmsg [] (be32 2147483650 ++ [2%N])); PRecv None 9%N true;
+   PSend (Some 0%N) 9%N true (mkPmsg [] [3%N])].
+Lemma rep_send_poll_mirror_refuted_w :
+  let s := fst (rep_run (mkPfix true true true false) rep_init w_rep_wbusy) in
+  poll_w (rep_poll s) = Some true /\
+  snd (rep_step (mkPfix true true true false) s (PSend None 9%N true (mkPmsg [] [4%N]))) = [Complete 9%N E_AGAIN None].
+Proof. vm_compute. split; reflexivity. Qed.
+Lemma rep_send_poll_mirror_repaired_w :
+  let s := fst (rep_run pf_repaired rep_init w_rep_wbusy) in
+  poll_w (rep_poll s) = Some false /\
+  poll_w (rep_poll (fst (rep_step pf_repaired s (PSendDone 1%N 0%N)))) = Some true.
+Proof. vm_compute. split; reflexivity. Qed.
+
+(* ------------------------------------------------------------------ *)
+(* the receive descriptor mirrors `some pipe holds a parsed request' in every
+   reachable state of the repaired code (pf_rclose), hence the non-blocking receive *)
+Definition hr (s : rep) : list (pid * pmsg) * bool := (rp_holding s, rp_readable s).
+Ltac brk := cbv zeta; repeat match goal with |- context [if ?b then _ else _] => destruct b end.
+
+Lemma rep_ctx_send_hr pf s k c a nb m : hr (fst (rep_ctx_send pf s k c a nb m)) = hr s.
+Proof. unfold rep_ctx_send. brk; reflexivity. Qed.
+Lemma rep_take_hr pf s k c p m r : hr (rep_take pf s k c p m r) = hr s.
+Proof. unfold rep_take. brk; reflexivity. Qed.
+Lemma rep_ctx_close_hr s k c : hr (fst (rep_ctx_close s k c)) = hr s.
+Proof. unfold rep_ctx_close. destruct (rc_saio c) as [[sa x]|]; destruct (rc_raio c); reflexivity. Qed.
+Lemma close_sendq_hr ks : forall s, hr (fst (close_sendq s ks)) = hr s.
+Proof.
+  induction ks as [|k ks IH]; intros s; cbn [close_sendq]; [reflexivity|].
+  destruct (rp_get s k) as [c|]; [|apply IH]. destruct (rc_saio c) as [[a m]|]; [|apply IH].
+  match goal with |- context [close_sendq ?X ks] => specialize (IH X); destruct (close_sendq X ks) as [s1 outs] end.
+  cbn [fst] in *. rewrite IH. reflexivity.
+Qed.
+
+Lemma assoc_del_nohit {A} p (l : list (N * A)) :
+  filter (fun x => N.eqb (fst x) p) l = [] -> assoc_del p l = l.
+Proof.
+  unfold assoc_del. induction l as [|[k v] l IH]; cbn [filter fst]; [reflexivity|].
+  destruct (N.eqb k p); cbn [negb]; [discriminate|]. intros H. now rewrite IH.
+Qed.
+
+Lemma rep_rinv_step pf s o : pf_rclose pf = true -> rep_rinv s -> rep_rinv (fst (rep_step pf s o)).
+Proof.
+  unfold rep_rinv. intros Hf Hi.
+  assert (Hhr : forall s', hr s' = hr s -> rp_readable s' = negb (is_nil (rp_holding s'))).
+  { intros s' E. unfold hr in E. inversion E as [[E1 E2]]. now rewrite E1, E2. }
+  destruct o; cbn [rep_step].
+  - (* PSend *) destruct (rp_get s (ckey c)); [apply Hhr, rep_ctx_send_hr|exact Hi].
+  - (* PRecv *) destruct (rp_get s (ckey c)) as [cx|]; [|exact Hi]. unfold rep_ctx_recv.
+    destruct (rp_holding s) as [|[p m] rest] eqn:EH.
+    + destruct nb; [apply Hhr; reflexivity|]. destruct (rc_raio cx); [apply Hhr; reflexivity|]. cbn [fst]. apply Hhr. reflexivity.
+    + cbn [fst]. cbv zeta.
+      match goal with |- context [rep_take pf ?X _ _ _ _ _] => pose proof (rep_take_hr pf X (ckey c) cx p m (rc_raio cx)) as E end.
+      unfold hr in E. inversion E as [[E1 E2]]. rewrite E1, E2.
+      destruct rest; cbn [is_nil rp_holding rp_readable rp_set_holding rp_set_readable negb]; [reflexivity|].
+      exact Hi.
+  - (* PCancel *) destruct (find_pctx (saio_is a) (rp_ctxs s)) as [[k c]|]; [exact Hi|].
+    destruct (find_pctx (fun c => opt_is a (rc_raio c)) (rp_ctxs s)) as [[k c]|]; exact Hi.
+  - (* PPipeStart *) destruct (negb (peer =? PROTO_REQ)%N); exact Hi.
+  - (* PPipeClose *)
+    cbv zeta. rewrite Hf. cbn [andb].
+    set (held := map snd (filter (fun x => N.eqb (fst x) p) (rp_holding s))).
+    set (s0 := rp_set_holding (rp_set_pipes s (rp_pipes s) (rp_busy s) (rp_pclosed s ++ [p])) (assoc_del p (rp_holding s))).
+    set (s1 := if negb (is_nil held) && is_nil (rp_holding s0) then rp_set_readable s0 false else s0).
+    assert (H1 : rp_readable s1 = negb (is_nil (rp_holding s1))).
+    { subst s1. destruct (is_nil held) eqn:EHeld; cbn [negb andb].
+      - assert (EF : filter (fun x => N.eqb (fst x) p) (rp_holding s) = []).
+        { subst held. destruct (filter _ (rp_holding s)); [reflexivity|discriminate]. }
+        subst s0. cbn [rp_readable rp_holding rp_set_holding rp_set_pipes]. rewrite (assoc_del_nohit _ _ EF). exact Hi.
+      - destruct (is_nil (rp_holding s0)) eqn:E0; cbn [rp_readable rp_set_readable rp_holding].
+        + now rewrite E0.
+        + rewrite E0. subst s0. cbn [rp_readable rp_set_holding rp_set_pipes]. rewrite Hi.
+          destruct (rp_holding s); [subst held; discriminate|reflexivity]. }
+    match goal with |- context [close_sendq ?X ?K] => pose proof (close_sendq_hr K X) as E; destruct (close_sendq X K) as [s2 outs] end.
+    cbn [fst] in *. unfold hr in E. inversion E as [[E1 E2]]. cbn [rp_holding rp_readable rp_set_sendq] in E1, E2.
+    destruct (p =? master_pipe s2)%N; cbn [rp_readable rp_holding rp_set_pipes rp_set_writable]; rewrite E1, E2; exact H1.
+  - (* PSendDone *) cbv zeta. destruct (negb (rv =? 0)%N); [exact Hi|].
+    match goal with |- context [first_on p ?L] => destruct (first_on p L) as [k|] end.
+    + match goal with |- context [rp_get ?X k] => destruct (rp_get X k) as [c|] end; [|exact Hi].
+      destruct (rc_saio c) as [[a m]|]; exact Hi.
+    + brk; exact Hi.
+  - (* PRecvDone *) destruct (negb (rv =? 0)%N); [exact Hi|].
+    destruct (rep_recv (rp_ttl s) (pm_body m)) as [m'| |]; try exact Hi.
+    destruct (has_id p (rp_pclosed s)); [exact Hi|].
+    destruct (rp_recvq s) as [|k rest].
+    + cbn [fst rp_readable rp_holding rp_set_readable rp_set_holding]. destruct (rp_holding s); reflexivity.
+    + destruct (rp_get s k) as [c|]; [|exact Hi]. destruct (rc_raio c); [|exact Hi].
+      cbn [fst]. apply Hhr. rewrite rep_take_hr. reflexivity.
+  - (* PSetOpt *) destruct c; [exact Hi|]. destruct o; try exact Hi.
+    + destruct (8192 <? N.of_nat n)%N; exact Hi.
+    + destruct (8192 <? N.of_nat n)%N; exact Hi.
+    + destruct ((n <? BT_TTL_MIN) || (BT_TTL_MAX <? n)); exact Hi.
+  - (* PCtxOpen *) exact Hi.
+  - (* PCtxClose *) destruct (rp_get s (c + 1)%N) as [cx|]; [|exact Hi].
+    pose proof (rep_ctx_close_hr s (c + 1)%N cx) as E. destruct (rep_ctx_close s (c + 1)%N cx) as [s1 outs].
+    cbn [fst] in *. unfold hr in E. inversion E as [[E1 E2]]. cbn [rp_readable rp_holding rp_set_ctxs]. now rewrite E1, E2.
+  - (* PSockClose *) destruct (rp_get s 0%N) as [c|]; [|exact Hi]. apply Hhr, rep_ctx_close_hr.
+  - (* PTick *) exact Hi.
+Qed.
+
+Lemma rep_rinv_run pf ops : forall s, pf_rclose pf = true -> rep_rinv s -> rep_rinv (fst (rep_run pf s ops)).
+Proof.
+  induction ops as [|o ops IH]; intros s Hf Hi; cbn [rep_run]; [exact Hi|].
+  pose proof (rep_rinv_step pf s o Hf Hi) as H1. destruct (rep_step pf s o) as [s1 outs]. cbn [fst] in H1.
+  specialize (IH s1 Hf H1). destruct (rep_run pf s1 ops) as [s2 tr]. exact IH.
+Qed.
+
+(* the mirror proper: in every state reached from rep_init by the repaired code, the
+   receive descriptor is raised exactly when a non-blocking receive does not return
+   NNG_EAGAIN (on any context), and then it delivers *)
+Lemma rep_recv_poll_mirror pf ops k c a :
+  pf_rclose pf = true ->
+  let s := fst (rep_run pf rep_init ops) in
+  (poll_r (rep_poll s) = Some true <->
+     snd (rep_ctx_recv pf s k c a true) <> [Complete a E_AGAIN None]) /\
+  (poll_r (rep_poll s) = Some true -> exists p m, snd (rep_ctx_recv pf s k c a true) = [TranRecv p; Complete a E_OK (Some (rep_deliver m))]).
+Proof.
+  intros Hf s. pose proof (rep_rinv_run pf ops rep_init Hf rep_rinv_init) as Hi. fold s in Hi. unfold rep_rinv in Hi.
+  unfold rep_poll. cbn [poll_r]. rewrite Hi. unfold rep_ctx_recv.
+  destruct (rp_holding s) as [|[p m] rest]; cbn [is_nil negb snd].
+  - split; [split; [discriminate|intros H; exfalso; apply H; reflexivity]|discriminate].
+  - split; [split; [intros _; discriminate|reflexivity]|]. intros _. exists p, m. reflexivity.
+Qed.
